@@ -636,7 +636,8 @@ func genRealSpec(r *rand.Rand, seed int64, i int) *realSpec {
 	// group_interval above the cluster wait of the last position (outside the degenerate regime of known finding 1)
 	sp.GroupIntvl = time.Duration(sp.Size-1)*sp.PeerTimeout + 1500*time.Millisecond
 	if sp.Kind == "only-last-position-can-deliver" {
-		sp.GroupIntvl = 5 * time.Second // base pipeline time-out = max(group_interval, 10 s) = 10 s < 12 s wait
+		// base pipeline time-out = max(group_interval, 10 s): 10 s or 11 s, both below the 12 s wait
+		sp.GroupIntvl = []time.Duration{5 * time.Second, 11 * time.Second}[(i/len(kinds))%2]
 	} else {
 		sp.AddAt = sp.GroupIntvl + 700*time.Millisecond
 		sp.ResolveAt = 2*sp.GroupIntvl + 1800*time.Millisecond
@@ -668,8 +669,8 @@ func genRealSpec(r *rand.Rand, seed int64, i int) *realSpec {
 func TestRealMesh(t *testing.T) {
 	run := vf.Cur()
 	sub := run.Sub("real-mesh-loopback", "2-3 unmodified instances with the REAL gossip mesh (memberlist on loopback, real Peer.Position / clusterWait / pipeline time-out extension / settle), real time; every instance is (re-)sent the same alerts once a second; kinds: healthy, a late joiner with an empty data directory (it must hold the log entries of the groups notified before within 5 s of reporting ready - rule (f)), position 0 cannot deliver (recoverable or unrecoverable errors), position 0 leaves gracefully mid-run, only the last position can deliver with a cluster wait (12 s) above the base pipeline time-out; a monitor polls every instance's notification log every 3 ms; judged: (a) no delivery starts earlier than position x peer_timeout after its flush tick while membership is complete, (b) at the end some instance has delivered the current state of every group and the resolution, (c) no instance repeats a state whose covering entry the monitor had seen in that instance's log before the flush tick, (e) in healthy runs (half of them with a 120-alert group whose log entry exceeds the 700-byte direct-send threshold) the entry of every successful notification is seen in every other instance's log within 5 s; a miss of (b) or (e) must reproduce on 3 runs; non-trivial = >=2 successful notifications and every instance was ready with full membership; distinct by (seed)", 4)
-	n := run.N(10, 200)
-	vf.Parallel(t, n, 10, func(t *testing.T, i int) {
+	n := run.N(12, 240)
+	vf.Parallel(t, n, 12, func(t *testing.T, i int) {
 		r := sub.Rand(i)
 		sp := genRealSpec(r, sub.Seed(i), i)
 		var verdicts []realVerdict
